@@ -185,6 +185,7 @@ func Harness() vh.Harness {
 			got = append(got, -102)
 			got = append(got, w.EncFinal()...)
 			got = append(got, -104, 1) // the session built from the spec is well-formed (model-side check)
+			got = append(got, -105, 1) // its ledgers are sums over its pods (model-side check)
 			last = stash{evidence: append(append([]int64{}, modelIn[:base]...), w.evidence(choices)...), multiTier: len(spec.Tiers) > 1, capOnly: capOnly(spec), gangAll: gangAll(spec)}
 			return modelIn, got
 		case 2:
@@ -238,11 +239,9 @@ func Harness() vh.Harness {
 		if last.gangAll {
 			law(108, last.evidence, "")
 		}
-		sig := ""
-		if last.multiTier {
-			sig = SigFallThrough
-		}
-		law(104, last.evidence, sig)
+		// law 104 answers true whenever law 103 fails, so a failing 104 is exactly the documented mechanism: the walk
+		// skipped a tier whose voters agreed on nothing and a voter of that tier had vetoed the victim
+		law(104, last.evidence, SigFallThrough)
 	}
 	gen := func(rng *vh.Rng, n int, emit func(id string, sel int, in []int64, kind string, nontrivial bool, desc any)) {
 		for i := 0; i < n; i++ {
